@@ -1,1 +1,422 @@
-/- C06 — property theorems (stub: not built yet) -/
+import Rivaas.Spec.ErrFmt
+/-
+C06 — Error responses conform to the selected formatter. Property theorems.
+All statements quantify over every error value (any wrapping depth, any layer implementing any subset
+of ErrorType / ErrorCode / ErrorDetails, any details JSON), every formatter configuration, every
+Accept header, every position of the failing handler.
+-/
+namespace Rivaas.C06
+open Rivaas.ErrFmt
+
+/-! ### `errors.As` is a pre-order search -/
+
+mutual
+  theorem lemma_findCap_status : ∀ (e : Err), findCap (·.st) e = (statusLayers e).head?
+    | .node caps m kids => by
+      simp only [findCap, statusLayers]
+      cases h : caps.st with
+      | some s => simp
+      | none => simpa using lemma_findCapL_status kids
+  theorem lemma_findCapL_status : ∀ (es : List Err), findCapL (·.st) es = (statusLayersL es).head?
+    | [] => by simp [findCapL, statusLayersL]
+    | e :: es => by
+      simp only [findCapL, statusLayersL, List.head?_append]
+      rw [lemma_findCap_status e, lemma_findCapL_status es]
+      cases (statusLayers e).head? <;> simp
+end
+
+/-- the status `errors.As(err, &ErrorType)` finds is the outermost declared one (pre-order) -/
+theorem status_is_first_layer (e : Err) : asStatus e = (statusLayers e).head? :=
+  lemma_findCap_status e
+
+/-- `WithStatus` at the outside always decides, whatever is wrapped inside -/
+theorem withStatus_outermost (s : Nat) (e : Err) : asStatus (.withStatus s e) = some s := by
+  simp [asStatus, Err.withStatus, findCap]
+
+/-- wrapping with `%w` is transparent for status, code and details -/
+theorem wrap_transparent (pre : Bytes) (e : Err) :
+    asStatus (.wrap pre e) = asStatus e ∧ asCode (.wrap pre e) = asCode e ∧ asDetails (.wrap pre e) = asDetails e := by
+  refine ⟨?_, ?_, ?_⟩ <;>
+  · simp only [asStatus, asCode, asDetails, Err.wrap, findCap, findCapL]
+    split <;> simp_all
+
+/-- the status every formatter answers with is the documented one -/
+theorem lemma_determine_doc (f : Fmt) (call : Call) : determineStatus f call.err = docStatus f call := by
+  unfold determineStatus docStatus
+  cases hres : f.statusRes with
+  | some s => cases call <;> simp
+  | none =>
+    cases call with
+    | fail e =>
+      simp only [Call.err]
+      have := status_is_first_layer e
+      unfold asStatus at this
+      simp only [asStatus, this]
+      cases (statusLayers e).head? <;> simp
+    | failStatus s e =>
+      cases e with
+      | some e => simp [Call.err, withStatus_outermost]
+      | none => simp [Call.err, asStatus, Err.withStatusNil, findCap]
+    | helper h e =>
+      have hh : h.status = helperDoc h := by cases h <;> rfl
+      cases e with
+      | some e => simp [Call.err, withStatus_outermost, hh]
+      | none => simp [Call.err, asStatus, Err.withStatusNil, findCap, hh]
+
+
+/-! ### sorted objects: looking a member up in `sortKvs kvs` -/
+
+theorem lemma_mem_insertKv (kv x : Bytes × Json) (l : List (Bytes × Json)) :
+    x ∈ insertKv kv l ↔ x = kv ∨ x ∈ l := by
+  induction l with
+  | nil => simp [insertKv]
+  | cons y ys ih =>
+    simp only [insertKv]
+    split
+    · simp
+    · simp only [List.mem_cons, ih]
+      constructor
+      · rintro (h | h | h) <;> simp [h]
+      · rintro (h | h | h) <;> simp [h]
+
+theorem lemma_mem_sortKvs (x : Bytes × Json) (l : List (Bytes × Json)) : x ∈ sortKvs l ↔ x ∈ l := by
+  induction l with
+  | nil => simp [sortKvs]
+  | cons y ys ih =>
+    have : sortKvs (y :: ys) = insertKv y (sortKvs ys) := rfl
+    rw [this, lemma_mem_insertKv, ih]
+    simp
+
+/-- every member with key `k` carries `v`, and there is one: the lookup yields `v` -/
+theorem lemma_get_unique (kvs : List (Bytes × Json)) (k : Bytes) (v : Json)
+    (hall : ∀ x ∈ kvs, x.1 = k → x.2 = v) (hex : ∃ x ∈ kvs, x.1 = k) :
+    Json.get? k (.obj (sortKvs kvs)) = some v := by
+  simp only [Json.get?]
+  cases hf : (sortKvs kvs).find? (fun kv => kv.1 == k) with
+  | none =>
+    obtain ⟨x, hx, hk⟩ := hex
+    have := List.find?_eq_none.mp hf x ((lemma_mem_sortKvs x kvs).mpr hx)
+    simp [hk] at this
+  | some x =>
+    have hm := (lemma_mem_sortKvs x kvs).mp (List.mem_of_find?_eq_some hf)
+    have hk : x.1 = k := by simpa using List.find?_some hf
+    simp [hall x hm hk]
+
+theorem lemma_get_none (kvs : List (Bytes × Json)) (k : Bytes) (hno : ∀ x ∈ kvs, x.1 ≠ k) :
+    Json.get? k (.obj (sortKvs kvs)) = none := by
+  simp only [Json.get?, Option.map_eq_none_iff, List.find?_eq_none]
+  intro x hx
+  have := hno x ((lemma_mem_sortKvs x kvs).mp hx)
+  simpa using this
+
+/-! ### `ProblemDetail.MarshalJSON` -/
+
+/-- a reserved key in the marshalled map can only come from the struct's own fields -/
+theorem lemma_reserved_member (p : Problem) (x : Bytes × Json) (hx : x ∈ marshalProblemKvs p) (hr : x.1 ∈ reserved) :
+    x = (kType, .str p.type) ∨ x = (kTitle, .str p.title) ∨
+    x = (kStatus, .num (natBytes p.status)) ∨
+    (p.detail.isEmpty = false ∧ x = (kDetail, .str p.detail)) ∨
+    (p.instance_.isEmpty = false ∧ x = (kInstance, .str p.instance_)) := by
+  simp only [marshalProblemKvs, List.mem_append, List.mem_cons, List.mem_filter] at hx
+  rcases hx with (((h | h | h | h) | h) | h) | h
+  · exact Or.inl h
+  · exact Or.inr (Or.inl h)
+  · exact Or.inr (Or.inr (Or.inl h))
+  · cases h
+  · split at h
+    · cases h
+    · rename_i hne
+      simp only [List.mem_singleton] at h
+      exact Or.inr (Or.inr (Or.inr (Or.inl ⟨by simpa using hne, h⟩)))
+  · split at h
+    · cases h
+    · rename_i hne
+      simp only [List.mem_singleton] at h
+      exact Or.inr (Or.inr (Or.inr (Or.inr ⟨by simpa using hne, h⟩)))
+  · obtain ⟨_, hnr⟩ := h
+    exact absurd hr (by simpa using hnr)
+
+/-- **Reserved members cannot be overridden by extensions**: whatever the extensions contain, the five
+    RFC 9457 members of the marshalled object are exactly the struct's own fields (`detail` and
+    `instance` absent when empty). -/
+theorem reserved_not_overridable (p : Problem) :
+    (marshalProblem p).get? kType = some (.str p.type) ∧
+    (marshalProblem p).get? kTitle = some (.str p.title) ∧
+    (marshalProblem p).get? kStatus = some (.num (natBytes p.status)) ∧
+    (marshalProblem p).get? kDetail = (if p.detail.isEmpty then none else some (.str p.detail)) ∧
+    (marshalProblem p).get? kInstance = (if p.instance_.isEmpty then none else some (.str p.instance_)) := by
+  have key : ∀ (k : Bytes) (v : Json), k ∈ reserved →
+      (∀ x ∈ marshalProblemKvs p, x.1 = k → x.2 = v) → (∃ x ∈ marshalProblemKvs p, x.1 = k) →
+      (marshalProblem p).get? k = some v := fun k v _ h1 h2 => lemma_get_unique _ k v h1 h2
+  refine ⟨?_, ?_, ?_, ?_, ?_⟩
+  · refine key _ _ (by decide) ?_ ⟨(kType, .str p.type), by simp [marshalProblemKvs], rfl⟩
+    intro x hx hk
+    rcases lemma_reserved_member p x hx (by rw [hk]; decide) with h | h | h | ⟨_, h⟩ | ⟨_, h⟩ <;>
+      (subst h; first | rfl | (dsimp only at hk; exact absurd hk (by decide)))
+  · refine key _ _ (by decide) ?_ ⟨(kTitle, .str p.title), by simp [marshalProblemKvs], rfl⟩
+    intro x hx hk
+    rcases lemma_reserved_member p x hx (by rw [hk]; decide) with h | h | h | ⟨_, h⟩ | ⟨_, h⟩ <;>
+      (subst h; first | rfl | (dsimp only at hk; exact absurd hk (by decide)))
+  · refine key _ _ (by decide) ?_ ⟨(kStatus, .num (natBytes p.status)), by simp [marshalProblemKvs], rfl⟩
+    intro x hx hk
+    rcases lemma_reserved_member p x hx (by rw [hk]; decide) with h | h | h | ⟨_, h⟩ | ⟨_, h⟩ <;>
+      (subst h; first | rfl | (dsimp only at hk; exact absurd hk (by decide)))
+  · split
+    · rename_i he
+      apply lemma_get_none
+      intro x hx hk
+      rcases lemma_reserved_member p x hx (by rw [hk]; decide) with h | h | h | ⟨hne, h⟩ | ⟨_, h⟩
+      · subst h; dsimp only at hk; exact absurd hk (by decide)
+      · subst h; dsimp only at hk; exact absurd hk (by decide)
+      · subst h; dsimp only at hk; exact absurd hk (by decide)
+      · simp [he] at hne
+      · subst h; dsimp only at hk; exact absurd hk (by decide)
+    · rename_i he
+      refine key _ _ (by decide) ?_ ⟨(kDetail, .str p.detail), by simp [marshalProblemKvs, he], rfl⟩
+      intro x hx hk
+      rcases lemma_reserved_member p x hx (by rw [hk]; decide) with h | h | h | ⟨_, h⟩ | ⟨_, h⟩ <;>
+        (subst h; first | rfl | (dsimp only at hk; exact absurd hk (by decide)))
+  · split
+    · rename_i he
+      apply lemma_get_none
+      intro x hx hk
+      rcases lemma_reserved_member p x hx (by rw [hk]; decide) with h | h | h | ⟨_, h⟩ | ⟨hne, h⟩
+      · subst h; dsimp only at hk; exact absurd hk (by decide)
+      · subst h; dsimp only at hk; exact absurd hk (by decide)
+      · subst h; dsimp only at hk; exact absurd hk (by decide)
+      · subst h; dsimp only at hk; exact absurd hk (by decide)
+      · simp [he] at hne
+    · rename_i he
+      refine key _ _ (by decide) ?_ ⟨(kInstance, .str p.instance_), by simp [marshalProblemKvs, he], rfl⟩
+      intro x hx hk
+      rcases lemma_reserved_member p x hx (by rw [hk]; decide) with h | h | h | ⟨_, h⟩ | ⟨_, h⟩ <;>
+        (subst h; first | rfl | (dsimp only at hk; exact absurd hk (by decide)))
+
+
+/-! ### the model's `MarshalJSON` passes the oracle of the direct-call cases -/
+
+mutual
+  theorem lemma_beq_refl : ∀ (j : Json), Json.beq j j = true
+    | .null => rfl
+    | .bool b => by simp [Json.beq]
+    | .num t => by simp [Json.beq]
+    | .str t => by simp [Json.beq]
+    | .arr xs => by simp only [Json.beq]; exact lemma_beqList_refl xs
+    | .obj kvs => by simp only [Json.beq]; exact lemma_beqKvs_refl kvs
+  theorem lemma_beqList_refl : ∀ (xs : List Json), Json.beqList xs xs = true
+    | [] => rfl
+    | x :: xs => by simp [Json.beqList, lemma_beq_refl x, lemma_beqList_refl xs]
+  theorem lemma_beqKvs_refl : ∀ (kvs : List (Bytes × Json)), Json.beqKvs kvs kvs = true
+    | [] => rfl
+    | (k, v) :: rest => by simp [Json.beqKvs, lemma_beq_refl v, lemma_beqKvs_refl rest]
+end
+
+theorem lemma_beq_self (j : Json) : (j == j) = true := lemma_beq_refl j
+
+theorem lemma_pairwise_unique (l : List (Bytes × Json)) (hnd : l.Pairwise fun a b => a.1 ≠ b.1)
+    (x y : Bytes × Json) (hx : x ∈ l) (hy : y ∈ l) (hk : x.1 = y.1) : x = y := by
+  induction l with
+  | nil => cases hx
+  | cons a rest ih =>
+    rw [List.pairwise_cons] at hnd
+    rcases List.mem_cons.mp hx with hx' | hx' <;> rcases List.mem_cons.mp hy with hy' | hy'
+    · rw [hx', hy']
+    · rw [hx'] at hk; exact absurd hk (hnd.1 y hy')
+    · rw [hy'] at hk; exact absurd hk.symm (hnd.1 x hx')
+    · exact ih hnd.2 hx' hy'
+
+/-- a non-reserved key in the marshalled map comes from the extensions -/
+theorem lemma_nonreserved_member (p : Problem) (x : Bytes × Json) (hx : x ∈ marshalProblemKvs p) (hr : x.1 ∉ reserved) :
+    x ∈ p.extensions := by
+  simp only [marshalProblemKvs, List.mem_append, List.mem_cons, List.mem_filter] at hx
+  rcases hx with (((h | h | h | h) | h) | h) | h
+  · subst h; exact absurd (show _ ∈ reserved by dsimp only; decide) hr
+  · subst h; exact absurd (show _ ∈ reserved by dsimp only; decide) hr
+  · subst h; exact absurd (show _ ∈ reserved by dsimp only; decide) hr
+  · cases h
+  · split at h
+    · cases h
+    · simp only [List.mem_singleton] at h; subst h; exact absurd (show _ ∈ reserved by dsimp only; decide) hr
+  · split at h
+    · cases h
+    · simp only [List.mem_singleton] at h; subst h; exact absurd (show _ ∈ reserved by dsimp only; decide) hr
+  · exact h.1
+
+/-- `MarshalJSON` as modelled satisfies the whole oracle of the direct-call cases, for every struct
+    and every extensions map (a Go map: distinct keys) -/
+theorem marshal_meets_spec (p : Problem) (hnd : p.extensions.Pairwise fun a b => a.1 ≠ b.1) :
+    marshalOK p (marshalProblem p) = true := by
+  obtain ⟨h1, h2, h3, h4, h5⟩ := reserved_not_overridable p
+  unfold marshalOK
+  simp only [Bool.and_eq_true]
+  refine ⟨⟨⟨⟨⟨⟨?_, ?_⟩, ?_⟩, ?_⟩, ?_⟩, ?_⟩, ?_⟩
+  · simp [memberIs, h1, lemma_beq_self]
+  · simp [memberIs, h2, lemma_beq_self]
+  · simp [memberIs, h3, lemma_beq_self]
+  · split <;> simp_all [memberIs, memberAbsent, lemma_beq_self]
+  · split <;> simp_all [memberIs, memberAbsent, lemma_beq_self]
+  · rw [List.all_eq_true]
+    intro kv hkv
+    by_cases hr : kv.1 ∈ reserved
+    · simp [hr]
+    · have hget : (marshalProblem p).get? kv.1 = some kv.2 := by
+        apply lemma_get_unique
+        · intro x hx hk
+          have := lemma_nonreserved_member p x hx (by rw [hk]; exact hr)
+          rw [lemma_pairwise_unique _ hnd x kv this hkv hk]
+        · exact ⟨kv, by
+            simp only [marshalProblemKvs, List.mem_append, List.mem_filter]
+            right
+            exact ⟨hkv, by simpa using hr⟩, rfl⟩
+      simp [hget, lemma_beq_self]
+  · simp only [marshalProblem, List.all_eq_true]
+    intro x hx
+    have hx' := (lemma_mem_sortKvs x _).mp hx
+    by_cases hr : x.1 ∈ reserved
+    · simp [hr]
+    · have := lemma_nonreserved_member p x hx' hr
+      simp only [Bool.or_eq_true, List.any_eq_true]
+      right
+      exact ⟨x, this, by simp⟩
+
+
+/-! ### each formatter produces its documented shape, with the status it returns -/
+
+theorem lemma_natBytes_ne (n : Nat) : (natBytes n).isEmpty = false := by
+  unfold natBytes
+  cases n with
+  | zero => simp [natDigits]
+  | succ m =>
+    simp only [natDigits]
+    split <;> simp
+
+theorem rfc_shape (env : Env) (f : Fmt) (e : Err) :
+    shapeOK .rfc9457 (formatRFC env f e).status (formatRFC env f e).body = true := by
+  simp only [formatRFC]
+  generalize hp : ({ type := determineType f e, title := env.stText (determineStatus f e), status := determineStatus f e,
+      detail := msgOf env.stText e, instance_ := env.path, extensions := _ } : Problem) = p
+  have hs : p.status = determineStatus f e := by rw [← hp]
+  obtain ⟨h1, h2, h3, h4, h5⟩ := reserved_not_overridable p
+  simp only [shapeOK, isStrAt, optStrAt, h1, h2, h3, h4, h5, hs, Bool.and_eq_true]
+  refine ⟨rfl, ⟨⟨⟨⟨rfl, rfl⟩, ?_⟩, ?_⟩, by simp⟩⟩
+  · split <;> simp_all
+  · split <;> simp_all
+
+/-- shape of one JSON:API error object -/
+def IsApiErr (status : Bytes) (x : Json) : Prop := isObj x = true ∧ x.get? kStatus = some (.str status)
+
+theorem lemma_apiErr (status title code detail : Bytes) (pointer : Option Bytes) (metaV : Option Json)
+    (hs : status.isEmpty = false) : IsApiErr status (jsonAPIErrorJson status title code detail pointer metaV) := by
+  have h1 : (kId == kStatus) = false := by decide
+  have h2 : (kStatus == kStatus) = true := by decide
+  refine ⟨rfl, ?_⟩
+  simp [jsonAPIErrorJson, Json.get?, hs, List.find?_cons, h1, h2]
+
+theorem lemma_fieldErr (status title errMsg : Bytes) (field : Json) (hs : status.isEmpty = false) :
+    IsApiErr status (jsonAPIFieldError status title errMsg field) := by
+  unfold jsonAPIFieldError
+  simp only
+  split <;> exact lemma_apiErr _ _ _ _ _ _ hs
+
+theorem jsonapi_shape (env : Env) (f : Fmt) (e : Err) :
+    shapeOK .jsonapi (formatJSONAPI env f e).status (formatJSONAPI env f e).body = true := by
+  have hs := lemma_natBytes_ne (determineStatus f e)
+  have hk : (kErrors == kErrors) = true := by decide
+  simp only [formatJSONAPI, shapeOK, isObj, Json.get?, List.find?_cons, hk, Option.map_some, Bool.true_and,
+    Bool.and_eq_true, List.all_eq_true]
+  -- the list before the final emptiness guard
+  generalize hL : (match asDetails e with
+      | some det =>
+        if (match det with
+            | .arr xs => xs.map (jsonAPIFieldError (natBytes (determineStatus f e)) (env.stText (determineStatus f e)) (msgOf env.stText e))
+            | _ => []).isEmpty = true then
+          [jsonAPIErrorJson (natBytes (determineStatus f e)) (env.stText (determineStatus f e)) [] (msgOf env.stText e) none
+            (some (.obj [(kDetails, det)]))]
+        else
+          (match det with
+            | .arr xs => xs.map (jsonAPIFieldError (natBytes (determineStatus f e)) (env.stText (determineStatus f e)) (msgOf env.stText e))
+            | _ => [])
+      | none => [jsonAPIErrorJson (natBytes (determineStatus f e)) (env.stText (determineStatus f e)) ((asCode e).getD [])
+          (msgOf env.stText e) none none]) = L
+  have hall : ∀ x ∈ L, IsApiErr (natBytes (determineStatus f e)) x := by
+    intro x hx
+    rw [← hL] at hx
+    split at hx
+    · split at hx
+      · simp only [List.mem_singleton] at hx; subst hx; exact lemma_apiErr _ _ _ _ _ _ hs
+      · split at hx
+        · simp only [List.mem_map] at hx
+          obtain ⟨fld, _, rfl⟩ := hx
+          exact lemma_fieldErr _ _ _ _ hs
+        · cases hx
+    · simp only [List.mem_singleton] at hx; subst hx; exact lemma_apiErr _ _ _ _ _ _ hs
+  split
+  · rename_i hemp
+    refine ⟨by simp, ?_⟩
+    intro x hx
+    simp only [List.mem_singleton] at hx
+    subst hx
+    obtain ⟨a, b⟩ := lemma_apiErr (natBytes (determineStatus f e)) (env.stText (determineStatus f e)) [] (msgOf env.stText e) none none hs
+    simp [a, b]
+  · rename_i hne
+    refine ⟨by simpa using hne, ?_⟩
+    intro x hx
+    obtain ⟨a, b⟩ := hall x hx
+    simp [a, b]
+
+/-- **JSON:API always has a non-empty errors array** — for every error value, also when `Details()`
+    is an empty slice, `null`, or not a slice at all -/
+theorem jsonapi_nonempty (env : Env) (f : Fmt) (e : Err) :
+    ∃ x xs, (formatJSONAPI env f e).body.get? kErrors = some (.arr (x :: xs)) := by
+  have := jsonapi_shape env f e
+  simp only [shapeOK, Bool.and_eq_true] at this
+  obtain ⟨_, h⟩ := this
+  split at h
+  · rename_i xs heq
+    cases xs with
+    | nil => simp at h
+    | cons x xs => exact ⟨x, xs, heq⟩
+  · cases h
+
+theorem simple_shape (env : Env) (f : Fmt) (e : Err) :
+    shapeOK .simple (formatSimple env f e).status (formatSimple env f e).body = true := by
+  simp only [formatSimple, shapeOK, isObj, Bool.true_and, isStrAt]
+  have : Json.get? kError (.obj (sortKvs ([(kError, .str (msgOf env.stText e))]
+      ++ (match asDetails e with | some d => [(kDetails, d)] | none => [])
+      ++ (match asCode e with | some c => [(kCode, .str c)] | none => [])))) = some (.str (msgOf env.stText e)) := by
+    apply lemma_get_unique
+    · intro x hx hk
+      simp only [List.mem_append, List.mem_singleton] at hx
+      rcases hx with (hx | hx) | hx
+      · rw [hx]
+      · split at hx
+        · simp only [List.mem_singleton] at hx; subst hx; dsimp only at hk; exact absurd hk (by decide)
+        · cases hx
+      · split at hx
+        · simp only [List.mem_singleton] at hx; subst hx; dsimp only at hk; exact absurd hk (by decide)
+        · cases hx
+    · exact ⟨_, by simp, rfl⟩
+  rw [this]
+
+theorem format_shape (env : Env) (f : Fmt) (e : Err) :
+    shapeOK f.kind (format env f e).status (format env f e).body = true := by
+  unfold format
+  cases hk : f.kind with
+  | rfc9457 => exact rfc_shape env f e
+  | jsonapi => exact jsonapi_shape env f e
+  | simple => exact simple_shape env f e
+
+theorem format_status (env : Env) (f : Fmt) (e : Err) : (format env f e).status = determineStatus f e := by
+  unfold format
+  cases f.kind <;> rfl
+
+/-- the media type of the `Content-Type` a formatter returns is the documented one -/
+theorem format_media_type (env : Env) (f : Fmt) (e : Err) :
+    headerMediaType (format env f e).contentType = mediaTypeOf f.kind := by
+  unfold format
+  cases f.kind
+  · show headerMediaType ctRFC = _; decide
+  · show headerMediaType ctJSONAPI = _; decide
+  · show headerMediaType ctSimple = _; decide
+
+end Rivaas.C06
